@@ -12,8 +12,8 @@ REPO = os.environ.get("VERIF_REPO", "/repo")
 BUILD = os.path.join(VERIF, "build")
 SPEC = os.path.join(VERIF, "spec")
 HARNESS = os.path.join(VERIF, "harness")
-EVID = os.path.join(VERIF, "evidence")
-REPLAYS = os.path.join(VERIF, "replays")
+EVID = os.environ.get("VERIF_EVID", os.path.join(VERIF, "evidence"))        # redirected by own mutation probes (tools/mut.py)
+REPLAYS = os.environ.get("VERIF_REPLAYS", os.path.join(VERIF, "replays"))
 GUARD = "GRAPHITE2_VERIF"
 NCPU = os.cpu_count() or 4
 
@@ -76,6 +76,34 @@ def _tree_hash(paths, extra=""):
     return h.hexdigest()[:16]
 
 
+class _BuildLock:
+    """Serialises builds of concurrently running checks (they share /verif/build)."""
+    def __enter__(self):
+        import fcntl
+        os.makedirs(BUILD, exist_ok=True)
+        self.fh = open(os.path.join(BUILD, ".lock"), "w")
+        fcntl.flock(self.fh, fcntl.LOCK_EX)
+        return self
+
+    def __exit__(self, *a):
+        import fcntl
+        fcntl.flock(self.fh, fcntl.LOCK_UN)
+        self.fh.close()
+
+
+def _drop_stale(pattern, keep, age=3 * 3600):
+    """Remove builds of other source states, but never ones a concurrently running check may still be using."""
+    now = time.time()
+    for old in glob.glob(pattern):
+        if old == keep:
+            continue
+        try:
+            if now - os.path.getmtime(old) > age:
+                shutil.rmtree(old, ignore_errors=True) if os.path.isdir(old) else os.remove(old)
+        except OSError:
+            pass
+
+
 def lib_sources(vm):
     srcs = sorted(glob.glob(os.path.join(REPO, "src", "*.cpp")))
     out = []
@@ -90,6 +118,11 @@ def lib_sources(vm):
 
 
 def build_lib(cfg):
+    with _BuildLock():
+        return _build_lib(cfg)
+
+
+def _build_lib(cfg):
     """Compile /repo/src (current working tree) with hooks on; returns (dir, [objects])."""
     cc, flags, vm = CONFIGS[cfg]
     common = COMMON.format(repo=REPO)
@@ -100,8 +133,8 @@ def build_lib(cfg):
     if os.path.exists(os.path.join(d, ".done")):
         return d, objs
     # drop stale builds of the same cfg
-    for old in glob.glob(os.path.join(BUILD, "lib", cfg + "-*")):
-        shutil.rmtree(old, ignore_errors=True)
+    _drop_stale(os.path.join(BUILD, "lib", cfg + "-*"), d)
+    shutil.rmtree(d, ignore_errors=True)
     os.makedirs(d, exist_ok=True)
     jobs = []
     for s, o in zip(srcs, objs):
@@ -116,9 +149,14 @@ def build_lib(cfg):
 
 
 def build_harness(cfg, name="grv", sources=None, extra_flags=""):
+    with _BuildLock():
+        return _build_harness(cfg, name, sources, extra_flags)
+
+
+def _build_harness(cfg, name="grv", sources=None, extra_flags=""):
     """Link a harness program against the library objects of cfg; returns path of the binary."""
     cc, flags, vm = CONFIGS[cfg]
-    libdir, objs = build_lib(cfg)
+    libdir, objs = _build_lib(cfg)
     if sources is None:
         sources = sorted(glob.glob(os.path.join(HARNESS, "*.cpp")))
     common = COMMON.format(repo=REPO)
@@ -128,15 +166,11 @@ def build_harness(cfg, name="grv", sources=None, extra_flags=""):
     exe = os.path.join(d, "%s-%s-%s" % (name, cfg, hkey))
     if os.path.exists(exe):
         return exe
-    for old in glob.glob(os.path.join(d, "%s-%s-*" % (name, cfg))):
-        try:
-            os.remove(old)
-        except OSError:
-            pass
+    _drop_stale(os.path.join(d, "%s-%s-*" % (name, cfg)), exe)
     hcommon = common.replace("-fno-exceptions", "")
     od = os.path.join(BUILD, "hobj", "%s-%s-%s" % (name, cfg, hkey))
-    for old in glob.glob(os.path.join(BUILD, "hobj", "%s-%s-*" % (name, cfg))):
-        shutil.rmtree(old, ignore_errors=True)
+    _drop_stale(os.path.join(BUILD, "hobj", "%s-%s-*" % (name, cfg)), od)
+    shutil.rmtree(od, ignore_errors=True)
     os.makedirs(od, exist_ok=True)
     hobjs = [os.path.join(od, os.path.basename(s)[:-4] + ".o") for s in sources]
     script = "\n".join("%s %s %s -fexceptions -I%s %s -c %s -o %s" % (cc, flags, hcommon, HARNESS, extra_flags, s, o)
